@@ -26,7 +26,7 @@ theorem srcRead_len (cs : List Bytes) (k : Nat) : (srcRead cs k).1.length ≤ k 
   | cons c cs => simp only [srcRead, takeK_eq, List.length_take]; omega
 
 theorem srcRead_end (cs : List Bytes) (k : Nat) (h : (srcRead cs k).2.2 = true) :
-    cs = [] ∧ (srcRead cs k).1 = [] := by
+    cs = [] ∧ (srcRead cs k).1 = [] ∧ (srcRead cs k).2.1 = [] := by
   cases cs with
   | nil => simp [srcRead]
   | cons c cs => simp [srcRead] at h
@@ -96,5 +96,55 @@ theorem consume_inv (fin : RErr) : ∀ (ps : List Nat) (acc : Bytes) (n : Int) (
       refine ⟨?_, ?_, fun h => i3 (h3 h), i4⟩
       · rw [i1, List.append_assoc, h1]
       · rw [i2]; simp only [List.length_append]; omega
+
+/-- an error other than the clean end comes from the exhausted source, with the counter still positive -/
+theorem read_err (n : Int) (plen : Nat) (cs : List Bytes) (fin : RErr) (e : RErr)
+    (h : (read n plen cs fin).1.err = some e) (hne : e ≠ .eof) :
+    cs = [] ∧ (read n plen cs fin).1.data = [] ∧ (read n plen cs fin).2.2 = [] ∧ 0 < n ∧
+    e = (if fin = .eof then .unexpectedEOF else fin) := by
+  unfold read at h ⊢
+  by_cases hn : n ≤ 0
+  · simp only [hn, ite_true] at h
+    injection h with h
+    exact absurd h.symm hne
+  · simp only [hn, ite_false] at h ⊢
+    have hend := srcRead_end cs (if (plen : Int) > n then n.toNat else plen)
+    generalize (srcRead cs (if (plen : Int) > n then n.toNat else plen)) = r at h hend ⊢
+    by_cases he : r.2.2 = true
+    · obtain ⟨h1, h2, h2'⟩ := hend he
+      refine ⟨h1, h2, h2', by omega, ?_⟩
+      by_cases hf : fin = .eof
+      · have hp : ((r.1.length : Nat) : Int) < n := by rw [h2]; simp; omega
+        simp [he, hf] at h
+        rw [if_pos hp] at h
+        injection h with h
+        simp [hf, ← h]
+      · simp [he, hf] at h
+        subst h
+        simp [hf]
+    · simp [he] at h
+
+/-- when a consumer's loop is ended by an error, what it has is what the frame-level summary says:
+    the first `n` bytes and a clean end, or everything there was and the premature-end error -/
+theorem consume_outcome (fin : RErr) : ∀ (ps : List Nat) (acc : Bytes) (n : Int) (cs : List Bytes) (e : RErr),
+    (consume read fin ps acc n cs).2.2.2 = some e → e ≠ .eof →
+    (consume read fin ps acc n cs).2.2.1 = [] ∧ 0 < (consume read fin ps acc n cs).2.1 ∧
+    e = (if fin = .eof then .unexpectedEOF else fin)
+  | [], acc, n, cs, e => by simp [consume]
+  | p :: ps, acc, n, cs, e => by
+    intro h hne
+    simp only [consume] at h ⊢
+    cases herr : (read n p cs fin).1.err with
+    | some e' =>
+      simp only [herr] at h ⊢
+      injection h with h
+      subst h
+      obtain ⟨h1, h2, h2', h3, h4⟩ := read_err n p cs fin e' herr hne
+      have hs := (read_step n p cs fin)
+      refine ⟨h2', ?_, h4⟩
+      rw [hs.2.1, h2]; simpa using h3
+    | none =>
+      simp only [herr] at h ⊢
+      exact consume_outcome fin ps _ _ _ e h hne
 
 end NettyVerif.ExactR
